@@ -6,6 +6,7 @@ From Verif Require Import C01.Lisp C01.Py C01.Gen C01.Sim C01.Top.
 From Verif Require C01.FLisp C01.FCorr C01.FRefuted.
 From Verif Require C01L.LLisp C01L.LGen C01L.LTop.
 From Verif Require C01X.XLisp C01X.XGen C01X.XTop.
+From Verif Require C01C.CLisp C01C.CGen C01C.CTop.
 
 (** PARTIAL: for programs without a hoisting hazard the compiled code produces exactly the
     source-order effect trace (every traced sub-expression on the taken path once, none on
@@ -45,6 +46,21 @@ Example C02_effects_around_exceptions :
   XGen.xrun 30 XTop.caught = Some (XGen.XRVal (VExc 1 (VInt 7)) [VInt 1; VInt 3; VInt 4]).
 Proof. exact XTop.caught_ok. Qed.
 
+(** with fn* closures and invocation: the function position and the arguments of a call are
+    evaluated left to right before the call, the effects of a function body happen at each call
+    (not at definition), in source order (trace component of C01_compile_correct_closures_partial) *)
+Theorem C02_order_closures_partial : forall fuel e v tr,
+  CLisp.ceval fuel [] e = Some (v, tr) -> CGen.hazard_free e = true ->
+  exists m, forall m', (m <= m')%nat -> CGen.crun m' e = Some (CLisp.obs_of v, tr).
+Proof. exact CTop.ccompile_correct. Qed.
+Example C02_effects_of_calls :
+  CGen.hazard_free CTop.adder = true /\
+  CGen.ceval_obs 30 CTop.adder =
+    Some (FLisp.OVec [FLisp.OVec [FLisp.OInt 1; FLisp.OInt 2; FLisp.OInt 5]; FLisp.OVec [FLisp.OInt 1; FLisp.OInt 3; FLisp.OInt 5]],
+          [FLisp.OInt 5; FLisp.OInt 3; FLisp.OInt 5]) /\
+  CGen.crun 30 CTop.adder = CGen.ceval_obs 30 CTop.adder.
+Proof. exact CTop.adder_ok. Qed.
+
 (** the same witness as a collection literal of the full fragment *)
 Theorem C02_hoist_literal_refuted :
   exists e, FCorr.spec e = FLisp.RVal (FLisp.OVec [FLisp.OInt 1; FLisp.OInt 2]) [FLisp.OInt 1; FLisp.OInt 2]
@@ -64,3 +80,5 @@ Print Assumptions C02_hoist_literal_refuted.
 Print Assumptions C02_hoist_refuted.
 Print Assumptions C02_order_exceptions_partial.
 Print Assumptions C02_effects_around_exceptions.
+Print Assumptions C02_order_closures_partial.
+Print Assumptions C02_effects_of_calls.
